@@ -257,16 +257,21 @@ class Driver:
 
 
 def run_histories(payload):
-    """payload {"histories": [[op, ...], ...], "ncoll": n, "ntype": n, "full": bool, "every": bool}
+    """payload {"histories": [[op, ...], ...], "ncoll": n, "ntype": n, "full": bool, "cached": [bool per history]}
     -> [{"steps": [{"out": str, "obs": {...}} ...]}]"""
     out = []
-    for h in payload["histories"]:
+    import contextlib
+    cached = payload.get("cached") or [False] * len(payload["histories"])
+    for h, cflag in zip(payload["histories"], cached):
         d = Driver(payload.get("ncoll", 5), payload.get("ntype", 3))
         try:
             steps = []
-            for i, op in enumerate(h):
-                o = d.step(op)
-                steps.append({"out": o, "obs": d.observe(full=payload.get("full", True))})
+            # cached: every operation and every probe of the history runs inside ONE registry caching context (collection
+            # records, summaries, dataset types cached by the client); the answers must be the same as without it
+            with (d.butler.registry.caching_context() if cflag else contextlib.nullcontext()):
+                for i, op in enumerate(h):
+                    o = d.step(op)
+                    steps.append({"out": o, "obs": d.observe(full=payload.get("full", True))})
             out.append({"steps": steps})
         finally:
             d.close()
